@@ -59,7 +59,105 @@ fn pwhash_object(i: &Input) -> Outcome {
     must_err(h.verify(&other), "PwHash::verify(wrong password)")
 }
 
-pub const C09: Registry = &[("pwhash", pwhash), ("pwhash_out_of_range", pwhash), ("pwhash_object", pwhash_object)];
+fn argon2id_string(mem: usize, ops: u64, salt: &[u8], hash: &[u8]) -> String {
+    use base64::Engine as _;
+    let b64 = base64::engine::general_purpose::STANDARD_NO_PAD;
+    format!("$argon2id$v=19$m={},t={},p=1${}${}", mem / 1024, ops, b64.encode(salt), b64.encode(hash))
+}
+
+/// Object API with a caller-supplied salt of ANY length (in particular longer than Config::salt_length, which only
+/// sizes the salt that `hash()` draws): outlen, pw, salt, salt_length (the Config value), ops, mem.
+/// Oracle: libsodium's Argon2 through crypto_pwhash_str_verify of the encoded (parameters, full salt, hash) -- its
+/// decoder accepts any salt length; for 16-byte salts crypto_pwhash itself as well.
+fn pwhash_object_any_salt(i: &Input) -> Outcome {
+    use dryoc::pwhash::{Config, VecPwHash};
+    let (outlen, ops, mem) = (i.num("outlen") as usize, i.num("ops"), i.num("mem") as usize);
+    let (pw, salt, salt_length) = (i.get("pw").to_vec(), i.get("salt").to_vec(), i.num("salt_length") as usize);
+    if salt.len() < 8 || outlen < 16 {
+        panic!("{} libsodium's Argon2 needs salt >= 8 bytes and output >= 16 bytes", HARNESS);
+    }
+    let mut other = pw.clone();
+    other.push(b'x');
+    let cfg = || {
+        Config::interactive()
+            .with_opslimit(ops)
+            .with_memlimit(mem)
+            .with_hash_length(outlen)
+            .with_salt_length(salt_length)
+    };
+    let h = must_ok(VecPwHash::hash_with_salt(&pw, salt.clone(), cfg()), "PwHash::hash_with_salt")?;
+    let (hash, stored_salt, _) = h.clone().into_parts();
+    eq("salt stored by PwHash::hash_with_salt", &salt, &stored_salt)?;
+    if hash.len() != outlen {
+        return fail(outlen.to_string(), hash.len().to_string(), "PwHash::hash_with_salt hash length");
+    }
+    let encoded = argon2id_string(mem, ops, &salt, &hash);
+    if so::pwhash_str_verify(&encoded, &other) {
+        panic!("{} libsodium verifies {} for a wrong password", HARNESS, encoded);
+    }
+    if !so::pwhash_str_verify(&encoded, &pw) {
+        return fail(
+            format!("Argon2id(pw, the {}-byte salt, t={}, m={} KiB, {} bytes)", salt.len(), ops, mem / 1024, outlen),
+            hex(&hash),
+            format!(
+                "PwHash::hash_with_salt (Config::salt_length {}): libsodium's Argon2 does not reproduce this hash from the full salt ({})",
+                salt_length, encoded
+            ),
+        );
+    }
+    if salt.len() == 16 {
+        let s16: [u8; 16] = salt[..].try_into().unwrap();
+        if let Some(w) = so::pwhash(outlen, &pw, &s16, ops, mem, so::ALG_ARGON2ID13) {
+            eq("PwHash::hash_with_salt hash vs libsodium crypto_pwhash", &w, &hash)?;
+        }
+    }
+    must_ok(h.verify(&pw), "PwHash::verify(correct password)")?;
+    must_err(h.verify(&other), "PwHash::verify(wrong password)")?;
+
+    // a hash made elsewhere (classic crypto_pwhash over the full salt, confirmed by libsodium) verifies through the
+    // object API, and the one of a different salt with the same first Config::salt_length bytes does not
+    let mut foreign = vec![0u8; outlen];
+    must_ok(
+        crypto_pwhash(&mut foreign, &pw, &salt, ops, mem, PasswordHashAlgorithm::Argon2id13),
+        "crypto_pwhash (same parameters, full salt)",
+    )?;
+    if !so::pwhash_str_verify(&argon2id_string(mem, ops, &salt, &foreign), &pw) {
+        return fail(
+            "Argon2id of the full salt",
+            hex(&foreign),
+            format!("crypto_pwhash with a {}-byte salt: libsodium's Argon2 does not reproduce this hash", salt.len()),
+        );
+    }
+    must_ok(
+        VecPwHash::from_parts(foreign.clone(), salt.clone(), cfg()).verify(&pw),
+        "PwHash::verify of a hash computed by crypto_pwhash over the same (full) salt",
+    )?;
+    if salt.len() > 8 {
+        let mut salt2 = salt.clone();
+        let last = salt2.len() - 1;
+        salt2[last] ^= 0x01;
+        let r = VecPwHash::from_parts(foreign, salt2.clone(), cfg()).verify(&pw);
+        if r.is_ok() {
+            return fail(
+                "Err",
+                "Ok",
+                format!(
+                    "PwHash::verify accepts the hash of salt {} for the different salt {} (they differ in the last byte)",
+                    hex(&salt),
+                    hex(&salt2)
+                ),
+            );
+        }
+    }
+    Ok(())
+}
+
+pub const C09: Registry = &[
+    ("pwhash", pwhash),
+    ("pwhash_out_of_range", pwhash),
+    ("pwhash_object", pwhash_object),
+    ("pwhash_object_salt_length", pwhash_object_any_salt),
+];
 
 pub fn c09(ctx: &mut Ctx) -> Search {
     let t = ctx.thorough;
@@ -138,6 +236,39 @@ pub fn c09(ctx: &mut Ctx) -> Search {
         ctx.run(
             "pwhash_object",
             Input::new().u("outlen", outlen).b("pw", &pw).b("salt", &salt).u("ops", ops).u("mem", mem),
+        )?;
+    }
+    // object API, caller-supplied salts shorter / equal / longer than Config::salt_length (default 16)
+    let mut shapes: Vec<(usize, u64, u64, u64, u64)> = vec![
+        // (salt bytes, Config::salt_length, outlen, ops, mem)
+        (16, 16, 32, 1, 8192),
+        (17, 16, 32, 1, 8192),
+        (24, 16, 32, 2, 9 * 1024),
+        (32, 16, 64, 1, 8192),
+        (64, 16, 32, 3, 8192),
+        (40, 24, 32, 1, 8192),
+        (8, 16, 16, 1, 8192),
+        (12, 8, 32, 1, 12 * 1024),
+        (33, 32, 33, 1, 8192),
+    ];
+    if t {
+        for sl in [9usize, 15, 18, 20, 31, 48, 63, 65, 100, 128, 255] {
+            shapes.push((sl, 16, 32, 1 + (sl as u64 % 3), 8192 + 1024 * (sl as u64 % 5)));
+            shapes.push((sl, 8, 16 + sl as u64 % 50, 1, 8192));
+        }
+    }
+    for (sl, cfg_sl, outlen, ops, mem) in shapes {
+        let pw = ctx.rng.bytes(1 + sl % 11);
+        let salt = ctx.rng.bytes(sl);
+        ctx.run(
+            "pwhash_object_salt_length",
+            Input::new()
+                .u("outlen", outlen)
+                .b("pw", &pw)
+                .b("salt", &salt)
+                .u("salt_length", cfg_sl)
+                .u("ops", ops)
+                .u("mem", mem),
         )?;
     }
     Ok(())
@@ -260,6 +391,52 @@ fresh1!(r_stream_header, "crypto_secretstream_xchacha20poly1305_init_push header
     ss::crypto_secretstream_xchacha20poly1305_init_push(&mut st, &mut h, &[7u8; 32]);
     h.to_vec()
 });
+/// The C-style reuse of an output buffer: ONE header buffer handed to successive init_push calls, so from the second
+/// call on it still holds the previous stream's header.  Every call must draw all 24 bytes again.
+fn r_stream_header_reused_buffer(i: &Input) -> Outcome {
+    use dryoc::classic::crypto_secretstream_xchacha20poly1305 as ss;
+    let n = i.num("n").max(2) as usize;
+    let mut h = [0u8; 24];
+    let mut samples = Vec::new();
+    for _ in 0..n {
+        let mut st = ss::State::new();
+        ss::crypto_secretstream_xchacha20poly1305_init_push(&mut st, &mut h, &[7u8; 32]);
+        samples.push(h.to_vec());
+    }
+    fresh("crypto_secretstream_xchacha20poly1305_init_push header (header buffer reused across calls)", &samples)
+}
+
+/// The header buffer holds `fill` (one byte repeated, or 24 bytes) before every call.
+fn r_stream_header_prefilled(i: &Input) -> Outcome {
+    use dryoc::classic::crypto_secretstream_xchacha20poly1305 as ss;
+    let n = i.num("n").max(2) as usize;
+    let fill = i.get("fill");
+    let mut pre = [0u8; 24];
+    match fill.len() {
+        1 => pre = [fill[0]; 24],
+        24 => pre.copy_from_slice(fill),
+        _ => panic!("{} fill must be 1 or 24 bytes", HARNESS),
+    }
+    let mut samples = Vec::new();
+    for call in 0..n {
+        let mut st = ss::State::new();
+        let mut h = pre;
+        ss::crypto_secretstream_xchacha20poly1305_init_push(&mut st, &mut h, &[7u8; 32]);
+        if h == pre {
+            return fail(
+                "24 freshly drawn bytes",
+                hex(&h),
+                format!(
+                    "crypto_secretstream_xchacha20poly1305_init_push (call #{}): the header is exactly what the caller's buffer held before the call -- nothing was drawn",
+                    call
+                ),
+            );
+        }
+        samples.push(h.to_vec());
+    }
+    fresh("crypto_secretstream_xchacha20poly1305_init_push header (header buffer pre-filled by the caller)", &samples)
+}
+
 fresh1!(r_stream_header_object, "DryocStream::init_push header", {
     use dryoc::dryocstream::{DryocStream, Header, Key};
     let (_s, h): (_, Header) = DryocStream::init_push(&Key::from([7u8; 32]));
@@ -381,6 +558,8 @@ pub const C11: Registry = &[
     ("sign_keypair", r_sign_keypair),
     ("secretstream_keygen", r_stream_keygen),
     ("secretstream_init_push_header", r_stream_header),
+    ("secretstream_init_push_header_reused_buffer", r_stream_header_reused_buffer),
+    ("secretstream_init_push_header_prefilled_buffer", r_stream_header_prefilled),
     ("dryocstream_init_push_header", r_stream_header_object),
     ("box_seal_ephemeral_key", r_seal_epk),
     ("dryocbox_seal_ephemeral_key", r_seal_epk_object),
@@ -408,10 +587,23 @@ pub const C11: Registry = &[
     ("pwhash_str_salt", r_pwhash_str_salt),
 ];
 
+/// Cases that take more than `n`: run by the generator with their extra inputs.
+pub const C11_EXTRA: &[&str] = &["secretstream_init_push_header_prefilled_buffer"];
+
 pub fn c11(ctx: &mut Ctx) -> Search {
     let n = if ctx.thorough { 512 } else { 64 };
     for (name, _) in C11 {
+        if C11_EXTRA.contains(name) {
+            continue;
+        }
         ctx.run(name, Input::new().u("n", n))?;
+    }
+    // caller's header buffer in every pre-call state: 0xff.., 0x01.., one non-zero byte, pseudo-random
+    let mut one = [0u8; 24];
+    one[23] = 0x80;
+    let fills: Vec<Vec<u8>> = vec![vec![0xff], vec![0x01], vec![0x00], one.to_vec(), ctx.rng.bytes(24), ctx.rng.bytes(24)];
+    for fill in fills {
+        ctx.run("secretstream_init_push_header_prefilled_buffer", Input::new().u("n", n).b("fill", &fill))?;
     }
     Ok(())
 }
